@@ -10,9 +10,27 @@ import (
 
 	"github.com/bfenetworks/bfe/bfe_bufio"
 	"github.com/bfenetworks/bfe/bfe_http"
+	"pgregory.net/rapid"
 
 	"verif/harness/internal/ev"
 )
+
+// uni draws an (approximately) uniform integer in [0,n). rapid's own integer
+// generators are deliberately biased towards small values, which would make
+// "one in n" features fire far too often; the draw is still a rapid draw
+// (reproducible from the seed, shrinks towards 0).
+func uni(rt *rapid.T, label string, n int) int {
+	if n <= 1 {
+		return 0
+	}
+	x := rapid.Uint64().Draw(rt, label)
+	x ^= x >> 33
+	x *= 0xff51afd7ed558ccd
+	x ^= x >> 33
+	x *= 0xc4ceb9fe1a85ec53
+	x ^= x >> 33
+	return int(x % uint64(n))
+}
 
 const maxURIBytes = 8192 // conf/bfe.conf MaxHeaderUriBytes default
 
